@@ -32,7 +32,12 @@ def unescape(string):
 def _replace_charref(match):
     name = match.group(1)
     if name[0] == '#':
-        return html.unescape(match.group(0))
+        # the code point itself (html.unescape would map 128..159 the way browsers do);
+        # NUL, surrogates and numbers beyond Unicode become the replacement character
+        number = int(name[2:-1], 16) if name[1] in 'xX' else int(name[1:-1])
+        if number == 0 or number > 0x10FFFF or 0xD800 <= number <= 0xDFFF:
+            return '\uFFFD'
+        return chr(number)
     return _html5_entities.get(name, match.group(0))
 
 
